@@ -33,6 +33,25 @@ impl ColorSpec {
             ColorSpec::Css(_) => None,
         }
     }
+    /// like `rgba`, and hex colour STRINGS are understood too: #rgb, #rgba, #rrggbb, #rrggbbaa (CSS: a short digit d means dd)
+    pub fn rgba_any(&self) -> Option<[u8; 4]> {
+        if let ColorSpec::Css(s) = self {
+            let h = s.strip_prefix('#')?;
+            if !h.bytes().all(|b| b.is_ascii_hexdigit()) {
+                return None;
+            }
+            let d = |i: usize| u8::from_str_radix(&h[i..i + 1], 16).ok();
+            let dd = |i: usize| u8::from_str_radix(&h[i..i + 2], 16).ok();
+            return match h.len() {
+                3 => Some([d(0)? * 17, d(1)? * 17, d(2)? * 17, 255]),
+                4 => Some([d(0)? * 17, d(1)? * 17, d(2)? * 17, d(3)? * 17]),
+                6 => Some([dd(0)?, dd(2)?, dd(4)?, 255]),
+                8 => Some([dd(0)?, dd(2)?, dd(4)?, dd(6)?]),
+                _ => None,
+            };
+        }
+        self.rgba()
+    }
     pub fn alpha_lt_255(&self) -> bool {
         matches!(self, ColorSpec::Rgba(c) if c[3] != 255)
     }
